@@ -409,6 +409,49 @@ def circuit_classes(circ):
 SWEEP_CLASSES = ('plain', 'placeholder', 'shared', 'custom')
 
 
+def probe_reuse(ctx):
+    """input class "buffer reuse across calls" (harness/c12.py `reuse_check`) for the hand-written backward rules and the objects built on them:
+    apply_gate_grad, apply_control_n_gate_grad, inner_product_grad, CircuitTorchWrapper.forward (one wrapper, two input states; two wrappers of the
+    same circuit shape interleaved), the gradients returned for two different cotangents, knill_laflamme_inner_product, PSDMatrixSqrtm,
+    PSDMatrixLogm, get_model_flat_parameter"""
+    import numqi, torch
+    from .c12 import reuse_check, _shares
+    st = numqi.sim.state
+    r = np.random.default_rng(1357)
+    cv = lambda n: r.normal(size=n) + 1j * r.normal(size=n)
+    U1 = numqi.random.rand_haar_unitary(2, seed=3); U2 = numqi.random.rand_haar_unitary(4, seed=4)
+    for n, idx, U in ((2, (1,), U1), (3, (2, 0), U2)):
+        reuse_check(ctx, f'apply_gate_grad[n={n}]', lambda qc, g: list(st.apply_gate_grad(qc, g, U, idx)), (cv(2 ** n), cv(2 ** n)), (cv(2 ** n), cv(2 ** n)))
+    reuse_check(ctx, 'apply_control_n_gate_grad', lambda qc, g: list(st.apply_control_n_gate_grad(qc, g, U1, {0}, (2,))), (cv(8), cv(8)), (cv(8), cv(8)))
+    reuse_check(ctx, 'inner_product_grad', lambda a, b: list(st.inner_product_grad(a, b, 0.3 - 0.2j, tag_grad=(True, True))), (cv(4), cv(4)), (cv(4), cv(4)))
+
+    def mk(seed):
+        rr = np.random.default_rng(seed)
+        c = numqi.sim.Circuit(default_requires_grad=True)
+        c.ry(0, float(rr.uniform(0, 6))); c.rx(1, float(rr.uniform(0, 6))); c.cnot(0, 1); c.rz(1, float(rr.uniform(0, 6))); c.cnot(1, 0)
+        return numqi.sim.CircuitTorchWrapper(c)
+    w1, w2 = mk(1), mk(2)
+    qA, qB = (torch.tensor(cv(4) / 2) for _ in range(2))
+    reuse_check(ctx, 'CircuitTorchWrapper.forward', lambda q: w1(q).detach(), (qA,), (qB,))
+    reuse_check(ctx, 'CircuitTorchWrapper.forward[two wrappers]', lambda w, q: w(q).detach(), (w1, qA), (w2, qA), describe=dict(A='wrapper 1, state A', B='wrapper 2 (same circuit shape, other angles), state A'))
+
+    def grads(w, q, g):
+        q = q.clone().requires_grad_(True)
+        out = w(q)
+        return list(torch.autograd.grad(out, [q] + [w.theta[k] for k in sorted(w.theta.keys())], grad_outputs=g))
+    gA, gB = (torch.tensor(cv(4)) for _ in range(2))
+    reuse_check(ctx, 'CircuitTorchWrapper.backward', lambda g: grads(w1, qA, g), (gA,), (gB,))
+    L, m = 2, 2
+    ops = [[((0,), numqi.gate.X)], [((1,), numqi.gate.Z)], [((0,), numqi.gate.X), ((1,), numqi.gate.Z)]]
+    cA, cB = (torch.tensor(cv(L * 2 ** m).reshape(L, 2 ** m)) for _ in range(2))
+    reuse_check(ctx, 'knill_laflamme_inner_product', lambda q: numqi.qec.knill_laflamme_inner_product(q, ops).detach(), (cA,), (cB,))
+    psd = lambda: (lambda a: torch.tensor(a @ a.conj().T + 0.3 * np.eye(3)))(r.normal(size=(3, 3)) + 1j * r.normal(size=(3, 3)))
+    XA, XB = psd(), psd()
+    reuse_check(ctx, 'PSDMatrixSqrtm', lambda X: numqi._torch_op.PSDMatrixSqrtm.apply(X), (XA,), (XB,))
+    reuse_check(ctx, 'PSDMatrixLogm', lambda X: numqi._torch_op.get_PSDMatrixLogm(3, 4)(X), (XA,), (XB,))
+    reuse_check(ctx, 'get_model_flat_parameter', numqi.optimize.get_model_flat_parameter, (w1,), (w2,), describe=dict(A='wrapper 1', B='wrapper 2'))
+
+
 def coverage_check(ctx):
     """a tie that was skipped because a private hook is unavailable must be covered by the public-path probes: for every program class either
     the exact sweep tie or the finite-difference / autograd probe has to have run; the counts go into the evidence"""
@@ -1880,6 +1923,7 @@ def probe(ctx):
         ctx.note(f'non-unitary gate experiment raised {type(ex).__name__}')
     ctx.extra['probe_worst_rel_err'] = {k: float(v) for k, v in worst.items()}
     probe_class_representatives(ctx, worst)
+    probe_reuse(ctx)
     coverage_check(ctx)
     ctx.assumptions.append('probe: central finite differences h=1e-5, relative tolerance 1e-5 (truncation error h^2*|f\'\'\'|/6 ~ 1e-10, rounding 1e-16/h ~ 1e-11 for O(1) losses); '
                            'pure-autograd re-implementation tolerance 1e-9; rank-deficient PSD inputs are outside "differentiable input" and only recorded')
